@@ -2133,6 +2133,14 @@ func (m *Machine) processQueue() Result {
 			// TODO optimize: check sub ctxs also on canceled txs
 			verifPoint(m, "tx:subs")
 			m.processSubscriptions(t)
+		} else if !t.Mutation.IsCheck {
+			// canceled: the waiters of this mutation's queue tick are still due
+			m.activeStatesMx.RLock()
+			toClose := m.subs.ProcessWhenQueue(m.queueTick)
+			m.activeStatesMx.RUnlock()
+			for _, ch := range toClose {
+				closeSafe(ch)
+			}
 		}
 
 		t.CleanCache()
